@@ -938,7 +938,7 @@ func TestVerifC16(t *testing.T) {
 		"write:Set:set", "write:Import:set", "write:ImportRoaring:set", "write:Set:time", "write:ImportRoaring:time", "shrink:ClearRow", "shrink:Clear", "shrink:Store",
 		"data:cleared-max", "data:time-nostandard")
 
-	n := r.N(200, 20000)
+	n := r.N(200, 8000)
 	r.Cases("ds", n, func(i int, id string, rng *vk.Rand) {
 		m := newMIndex(false)
 		index, err := env.newIndex(false)
